@@ -909,8 +909,12 @@ class Interp(Engine):
         fr.loops = None
         self.frames.append(fr)
         saved = (self.heap_old, self.env_old, self.cur_line)
+        saved_ghost = self.ghost
+        self.ghost = dict(self.ghost)
         line = self.cur_line
         try:
+            if c.setup:
+                c.setup(self)
             for text in c.requires_at_call():
                 g = self.spec_eval(text)
                 self.cur_line = line
@@ -944,6 +948,7 @@ class Interp(Engine):
         finally:
             self.frames.pop()
             self.heap_old, self.env_old, self.cur_line = saved
+            self.ghost = saved_ghost
 
     def havoc_lvalue(self, m):
         """modifies entry: 'self.x' | 'self.x[*]' (list contents) | 'self.d{*}' (dict contents) | callable"""
